@@ -22,6 +22,7 @@ package main
 
 import (
 	"bytes"
+	"crypto/sha256"
 	"encoding/xml"
 	"fmt"
 	"io"
@@ -107,6 +108,10 @@ type c01Env struct {
 	errs []string
 	raw  []byte // package produced by the case itself (ConvertFile); doc is nil then
 	note string
+	// byte slices an earlier ToBytes of the history returned, with their digest at that moment: what a
+	// caller was given must stay a readable package whatever is called afterwards (seed C01-d2)
+	kept    [][]byte
+	keptSum [][32]byte
 }
 
 func (x *c01Env) e(err error) {
@@ -625,6 +630,16 @@ func c01Alphabet() []c01HOp {
 		}
 		x.doc = d
 		x.refresh()
+	})
+	add("ToBytes(result kept by the caller)", func(x *c01Env) {
+		var b []byte
+		var err error
+		if p := guard(func() { b, err = x.doc.ToBytes() }); p != "" || err != nil {
+			x.note += " keep:save-failed"
+			return
+		}
+		x.kept = append(x.kept, b)
+		x.keptSum = append(x.keptSum, sha256.Sum256(b))
 	})
 	// a package written by another application takes the place of the document: content types the way Word
 	// declares them (jpg, not jpeg; PNG through an Override), sparse relationship ids, existing media
@@ -1341,6 +1356,17 @@ func c01Exec(cs c01Case, dir, out string) c01Result {
 		res.outcome = "ill-formed(after api-error; not judged)"
 		viol = nil
 	default:
+		res.outcome = "ill-formed"
+	}
+	for k, b := range x.kept {
+		if sha256.Sum256(b) == x.keptSum[k] {
+			continue
+		}
+		what := "the bytes an earlier ToBytes returned were changed by later calls on the document"
+		if kv, _ := c01Judge(b, false); len(kv) > 0 {
+			what += " and are no longer a well-formed package: " + kv[0].What
+		}
+		viol = append(viol, rep.Violation{Sig: "returned-bytes-changed-later|ToBytes", Clause: "saved-bytes-stay-readable", What: what})
 		res.outcome = "ill-formed"
 	}
 	for _, tok := range strings.Fields(x.note) {
